@@ -978,6 +978,14 @@ impl Opcode for SLoad {
         let storage = vm.state()?.storage_mut();
         let result = storage.load(&key);
 
+        // The load wraps the stored value together with its key, so like any other
+        // instruction result it has to respect the value size limit
+        let result = if result.size() > vm.config().value_size_limit {
+            vm.build().value(result.instruction_pointer(), result.provenance())
+        } else {
+            result
+        };
+
         // Write it into the stack
         vm.stack_handle()?.push(result)?;
 
